@@ -277,6 +277,20 @@ class Grammar(object):
         return uniq
 
 
+def _reads_only(stmt):
+    """The statement only reads the grammar objects (e.g. passes them to a
+    function that names the rules, or binds another name to them)."""
+    if isinstance(stmt, ast.Expr) and isinstance(stmt.value, ast.Call) \
+            and isinstance(stmt.value.func, ast.Name):
+        return True         # update_names(grammar[1]) and the like
+    if isinstance(stmt, ast.Assign) and all(
+            isinstance(t, ast.Name) and t.id not in (
+                'strict_grammar', 'enhanced_grammar')
+            for t in stmt.targets):
+        return True
+    return False
+
+
 def _fold(repo):
     """Interpret the module-level statements that build the two grammars."""
     tree = repo.mod(GRAMMAR).tree
@@ -323,6 +337,63 @@ def _fold(repo):
                 name = ast.literal_eval(t.slice)
                 strict[1][name] = _node(v)
                 lines_s[name] = stmt.lineno
+            else:
+                if any(isinstance(x, ast.Name) and x.id in (
+                        'strict_grammar', 'enhanced_grammar')
+                        for x in ast.walk(stmt)) and not _reads_only(stmt):
+                    raise AnalysisError('unmodelled assignment touching the '
+                                        'grammar: %s' % src(stmt)[:80])
+            continue
+        # rules added in bulk: <grammar>[1].update({name: rule, ...});
+        # rules removed: del <grammar>[1][name] / <grammar>[1].pop(name)
+        target = None
+        if isinstance(stmt, ast.Expr) and isinstance(stmt.value, ast.Call) \
+                and isinstance(stmt.value.func, ast.Attribute) \
+                and src(stmt.value.func.value) in ('enhanced_grammar[1]',
+                                                   'strict_grammar[1]'):
+            which = src(stmt.value.func.value)
+            g_, l_ = (enhanced, lines_e) if which.startswith('enh') else (
+                strict, lines_s)
+            if g_ is None:
+                raise AnalysisError('%s used before it is built' % which)
+            c = stmt.value
+            if c.func.attr == 'update' and len(c.args) == 1 \
+                    and not c.keywords and isinstance(c.args[0], ast.Dict):
+                for k, val in zip(c.args[0].keys, c.args[0].values):
+                    name = ast.literal_eval(k)
+                    g_[1][name] = _node(val)
+                    l_[name] = k.lineno
+                continue
+            if c.func.attr == 'pop' and len(c.args) >= 1:
+                g_[1].pop(ast.literal_eval(c.args[0]), None)
+                continue
+            raise AnalysisError('unmodelled change of %s: %s' % (
+                which, src(stmt)[:80]))
+        if isinstance(stmt, ast.Delete):
+            done = True
+            for t in stmt.targets:
+                if isinstance(t, ast.Subscript) and src(t.value) in (
+                        'enhanced_grammar[1]', 'strict_grammar[1]'):
+                    g_ = enhanced if src(t.value).startswith('enh') \
+                        else strict
+                    g_[1].pop(ast.literal_eval(t.slice), None)
+                elif 'grammar' in src(t):
+                    done = False
+            if done:
+                continue
+        # anything else that touches the grammars is not understood: fail
+        # closed rather than analyse a grammar that is not the one in use
+        if any(isinstance(x, ast.Name) and x.id in (
+                'strict_grammar', 'enhanced_grammar') and isinstance(
+                x.ctx, (ast.Store, ast.Del)) for x in ast.walk(stmt)) or (
+                not isinstance(stmt, (ast.FunctionDef, ast.ClassDef,
+                                      ast.Import, ast.ImportFrom))
+                and any(isinstance(x, ast.Name) and x.id in (
+                    'strict_grammar', 'enhanced_grammar')
+                    for x in ast.walk(stmt))
+                and not _reads_only(stmt)):
+            raise AnalysisError('unmodelled statement touching the grammar: '
+                                '%s' % src(stmt)[:80])
     if strict is None or enhanced is None:
         raise AnalysisError('grammars not found in ' + GRAMMAR)
     return (Grammar(strict[0], strict[1], lines_s),
